@@ -216,9 +216,57 @@ def read_line(path, lineno):
     return None
 
 
+def _strip_died(path):
+    """A driver that dies outside a guarded call ends its trace with {"e":"Died","sig":N} (harness/trace.h),
+    possibly after a half-written line.  Removes both from the file; returns {"sig", "line", "last"} or None."""
+    size = os.path.getsize(path)
+    with open(path, "rb") as f:
+        f.seek(max(0, size - (1 << 20)))
+        tail = f.read()
+    lines = tail.split(b"\n")
+    while lines and not lines[-1].strip():
+        lines.pop()
+    if not lines or b'"e":"Died"' not in lines[-1]:
+        return None
+    try:
+        ev = json.loads(lines[-1])
+    except ValueError:
+        return None
+    cut = len(lines[-1])
+    lines.pop()
+    while lines and not lines[-1].strip():
+        cut += len(lines[-1]) + 1
+        lines.pop()
+    last = None
+    if lines:
+        try:
+            last = json.loads(lines[-1])
+        except ValueError:          # the line being written when the process died
+            cut += len(lines[-1]) + 1
+            lines.pop()
+            try:
+                last = json.loads(lines[-1]) if lines else None
+            except ValueError:
+                last = None
+    # keep everything up to and including the last complete line
+    keep = tail[:len(b"\n".join(lines))] if lines else b""
+    with open(path, "r+b") as f:
+        f.truncate(max(0, size - len(tail)) + len(keep))
+        if keep:
+            f.seek(0, 2)
+            f.write(b"\n")
+    return {"sig": ev.get("sig"), "line": count_lines(path), "last": last}
+
+
 def validate(traces, module, cfg, xmx="2g", timeout=900, env=None):
     """TLC trace validation of each shard (one JVM each, -workers 1).
     Returns (events, rejects[(trace, line, prop, reason, event)], notes)."""
+    traces = [t for t in traces if os.path.getsize(t) > 0]
+    died = {}
+    for t in traces:
+        d = _strip_died(t)
+        if d:
+            died[t] = d
     traces = [t for t in traces if os.path.getsize(t) > 0]
 
     def one(t):
@@ -250,6 +298,12 @@ def validate(traces, module, cfg, xmx="2g", timeout=900, env=None):
                 rejects.append({"trace": t, "line": ln, "prop": prop, "why": why, "event": evs.get(ln)})
             for k, v in r["notes"].items():
                 notes[k] = notes.get(k, 0) + v
+    for t, d in died.items():
+        # "Died" is an action of no trace specification: the trace is rejected at that line
+        rejects.append({"trace": t, "line": d["line"], "prop": "ANY",
+                        "why": "the process died outside an observed library call (signal %s): the allocator found the "
+                               "heap corrupted by an earlier call, or an assertion / crash in an unguarded call" % d["sig"],
+                        "event": d["last"]})
     return events, rejects, notes
 
 
